@@ -1021,6 +1021,30 @@ func (t *tester) v2ForgedParentAfterInBlockRevision(cs consensus.State, orig typ
 					t.expect("v2filecontract", "forged-parent-after-genuine-revision-in-block/"+fg.name, false, "ValidateBlock/second-revision", err == nil)
 				}
 			}
+			// (a') the parent is the pending revision itself - the contract as the block's earlier transaction left
+			// it, which no accumulator holds - at the contract's own leaf and at the leaf of an unrelated element
+			for _, alt := range []string{"at-the-contracts-own-leaf", "at-the-leaf-of-an-unrelated-element"} {
+				parent := r.Parent.Copy()
+				parent.V2FileContract = r.Revision
+				if alt == "at-the-leaf-of-an-unrelated-element" {
+					ids := t.c.S.OrderedSC()
+					if len(ids) == 0 {
+						continue
+					}
+					other := t.c.S.SCEs[ids[len(ids)/2]]
+					parent.StateElement = other.Copy().StateElement
+				}
+				rev := r.Revision
+				rev.RevisionNumber++
+				txn := types.V2Transaction{FileContractRevisions: []types.V2FileContractRevision{{Parent: parent, Revision: rev}}}
+				t.c.SignV2(cs, &txn, standing)
+				blk := chaingen.CloneBlock(orig)
+				blk.V2.Transactions = append(blk.V2.Transactions, txn)
+				if err, _ := t.c.TryVariant(&blk); !chaingen.IsSealFailure(err) {
+					t.expect("v2filecontract", "pending-revision-as-parent-after-revision-in-block/"+alt, false, "ValidateBlock/second-revision", err == nil)
+					t.b.Count("v2_pending_revision_parents_tried", 1)
+				}
+			}
 			// (b) an expiration that only the forged heights allow
 			if h > 2 && r.Parent.V2FileContract.ExpirationHeight >= h {
 				parent := r.Parent.Copy()
@@ -1348,6 +1372,6 @@ func main() {
 		Run:         run,
 		MinEvals:    5000,
 		MinDistinct: 150,
-		Require:     []string{"v1_window_ids_replaced_by_a_non_ancestor", "blocks_applied", "blocks_reverted", "live_elements_accepted", "non_members_rejected"},
+		Require:     []string{"v1_window_ids_replaced_by_a_non_ancestor", "blocks_applied", "blocks_reverted", "live_elements_accepted", "non_members_rejected", "v2_pending_revision_parents_tried"},
 	})
 }
